@@ -66,6 +66,9 @@ type PeerSpec struct {
 	// offered only after that instance's OnDisconnect was closed, and it
 	// has the same address.
 	ReconnectOf int `json:"reconnect_of,omitempty"`
+	// TailSilent: once the script is exhausted the peer stays connected but
+	// never answers another request (instead of answering at once).
+	TailSilent bool `json:"tail_silent,omitempty"`
 }
 
 // stays reports whether the instance is certain to remain connected and
@@ -142,7 +145,7 @@ type RankSpec struct {
 // Scenario is one case. The list of scenarios is a pure function of the seed.
 type Scenario struct {
 	ID      int         `json:"id"`
-	Kind    string      `json:"kind"` // mixed | nopeer | stopmid | reconnect | rank
+	Kind    string      `json:"kind"` // mixed | nopeer | stopmid | reconnect | rank | idlestall
 	Peers   []PeerSpec  `json:"peers"`
 	Batches []BatchSpec `json:"batches"`
 	// StopAt: Stop is called at this point with whatever is in flight (no
@@ -150,6 +153,12 @@ type Scenario struct {
 	StopAt         *Trigger  `json:"stop_at,omitempty"`
 	QueryAfterStop bool      `json:"query_after_stop,omitempty"`
 	Rank           *RankSpec `json:"rank,omitempty"`
+	// Stall (kind idlestall): how the peers stop serving after the scripted
+	// successes: "disconnect" (every peer closes OnDisconnect on the next
+	// request it receives), "leave" (silent on the next request, then the
+	// peer's Leave trigger closes OnDisconnect), "silent" (every peer stays
+	// connected and never answers again), "mixed" (some of each).
+	Stall string `json:"stall,omitempty"`
 }
 
 // Generate returns n scenarios; scenario i depends only on (seed, i).
